@@ -64,8 +64,10 @@ class CacheFacts:
             self.list_target_end[mname] = _target_end(self.lf, f)
 
     def _is_len_dict(self, e, f: Func) -> bool:
+        # the number of entries: len of the dict, of the cache itself, or of the recency list (equal by coherence, C06.R2,
+        # as long as the list's own counter is right, which C06.R7 / C08.R1 decide)
         return isinstance(e, ast.Call) and isinstance(e.func, ast.Name) and e.func.id == "len" and len(e.args) == 1 \
-            and (dotted(e.args[0]) == (f.self_name, self.dict_field)
+            and (dotted(e.args[0]) in ((f.self_name, self.dict_field), (f.self_name, self.list_field))
                  or (isinstance(e.args[0], ast.Name) and e.args[0].id == f.self_name))
 
     def is_dict(self, e, f: Func) -> bool:
